@@ -270,7 +270,8 @@ def assign_drivers(raws, drivers, prefix, cli=0):
             drv = "secret"      # memory storage lives in the dying process: no crash / storage-fault replay on it
         sc = vlib.tlc_scenario_to_harness(r, "%s%d" % (prefix, i), drv)
         # a share of the scenarios is driven through the command line (pkg/cmd: flag parsing and wiring)
-        if cli and (i % cli == 0) and "sched" not in sc:
+        needs_cli = any(st.get("flags", {}).get("install") for st in sc["steps"] if "op" in st)   # --install exists only in pkg/cmd
+        if (needs_cli or (cli and (i % cli == 0))) and "sched" not in sc:
             for st in sc["steps"]:
                 if "op" in st:
                     st["via"] = "cli"
